@@ -270,7 +270,7 @@ def run(ctx):
     ctx.prove(extra=["RefBfsRun"])
     check_t5(ctx)
     rows = load_rows(ctx)
-    exact_cap = ctx.budget(6000, 400000)
+    exact_cap = ctx.budget(40000, 400000)
     prefix_cap = ctx.budget(3000, 120000)
     naive_cap = ctx.budget(20000, 200000)
     cases, metas, costs = [], [], []
@@ -336,7 +336,7 @@ def run(ctx):
     import time as _t
     _t0 = _t.time()
     bad = ctx.coq_failing("Base Perm Matrix RefBfs RefBfsRun", "", "growth_case", [cases[i] if i is not None else trivial for i in flat],
-                          "check_growth_case", "growth", shard=size, timeout=ctx.budget(900, 6000))
+                          "check_growth_case", "growth", shard=size, timeout=ctx.budget(2400, 9000))
     ctx.cov["timing_s"] = {"verified_bfs_in_coq": round(_t.time() - _t0, 1)}
     ctx.cov["disagreements_checked"] += len(cases)
     ctx.cov["correspondence"]["rows_decided_by_the_verified_bfs"] = len(cases)
